@@ -124,7 +124,7 @@ fn run(prop: &str, tier: &str) -> i32 {
             "note": "pages shorter than min(limit or 10, 30) although more current items follow. For unfiltered listings such a page is a violation; for the filtered listing (cw1-subkeys AllAllowances, which drops expired entries) a short non-empty page would only be reported here, an empty one is a violation (the walk would end early). The real code filters before `take(limit)`, so none occur.",
         }),
     );
-    rep.alphabet = "pager states (listing, store of n items, limit, cursor): 22 listing variants (cw20-base AllAccounts (all funded; and with runs of emptied accounts at the start, middle and end of the key order) / AllAllowances / AllSpenderAllowances; cw1-subkeys AllAllowances with six expiry patterns × query blocks, AllPermissions; cw3-fixed and cw3-flex ListProposals / ReverseProposals / ListVotes / ListVoters; cw4-group and cw4-stake ListMembers; cw20-ics20 ListAllowed); limits {absent, 0, 1, 2, 9, 10, 11, 29, 30, 31, 32, 100, 2^32-1}; cursors: none, every stored key as start_after / start_before (for the filtered listing also the keys of expired entries), and the walk from the beginning with the last returned key as next cursor until an empty page".into();
+    rep.alphabet = "pager states (listing, store of n items, limit, cursor): 26 listing variants (cw20-base AllAccounts (all funded; and with runs of emptied accounts at the start, middle and end of the key order) / AllAllowances / AllSpenderAllowances (each also after `migrate` from the pre-0.14 layout, and after full revocations / re-grants of mutual allowances at the start, middle and end of the key order); cw1-subkeys AllAllowances with six expiry patterns × query blocks, AllPermissions; cw3-fixed and cw3-flex ListProposals / ReverseProposals / ListVotes / ListVoters; cw4-group and cw4-stake ListMembers; cw20-ics20 ListAllowed); limits {absent, 0, 1, 2, 9, 10, 11, 29, 30, 31, 32, 100, 2^32-1}; cursors: none, every stored key as start_after / start_before (for the filtered listing also the keys of expired entries), and the walk from the beginning with the last returned key as next cursor until an empty page".into();
     rep.oracle = "expected listing = the constructed key set sorted by key bytes (numerically for proposal ids, descending for ReverseProposals), each key confirmed by the contract's point query (Balance, Allowance, Permissions, Proposal, Vote, Voter, Member, Allowed); every page must be the run of the next min(limit or 10, 30) expected entries after the cursor (fewer only at the end), each entry equal to the point query's answer; no page exceeds the requested limit, 30, or 10 without a limit; the page without a limit equals the page with limit 10; limit 0 gives an empty page; for every limit >= 1 the walk until an empty page returns every current item exactly once in order and terminates".into();
     rep.bounds = format!(
         "complete enumeration of sizes {:?} × 13 limits × (n+1) cursors + 13 walks per (listing, size){}; stores contain noise entries in neighbouring prefixes/namespaces",
@@ -137,6 +137,7 @@ fn run(prop: &str, tier: &str) -> i32 {
         "cursors are keys of the store (what a previous page can return); arbitrary strings as cursors are not explored".into(),
         "cw3-flex ListVoters / Voter are answered by a real cw4-group through the kernel's smart and raw queries".into(),
         "cw20-base AllAccounts over emptied accounts (balance transferred away, entry of 0 remains): the property does not say whether such an account is still an item; the unchanged code lists them, and the check accepts either reading (all stored accounts, or funded accounts only) provided the listing follows it completely for every limit and cursor".into(),
+        "cw20 allowance listings after revocations: a fully decreased allowance is not an item (the unchanged code removes it from both maps and the point query reads 0); it must not be listed, and every pair whose point query is non-zero must be listed once with that amount. The migrated stores are produced by wiping the `allowance_spender` namespace, setting cw2 version 0.13.4 and running the real migrate".into(),
         "cw3-fixed ListVoters with 0 voters is not constructible (instantiate refuses); cw20-ics20 ListChannels has no paging and is not covered".into(),
     ];
     rep.runs = runs;
